@@ -58,7 +58,10 @@ def selfIntersections (P : Prims K) (G : GeoConsts K) : Nat â†’ List (List K) â†
         | .ok (lrInts, _) =>
           let scaled := lrInts.map (fun p => (half * p.1, half * p.2 + half))
           let kept := scaled.filter (fun p => !(p.1 = half âˆ§ p.2 = half))
-          .ok (leftSelf.map (fun p => (half * p.1, half * p.2))
-                ++ kept ++ rightSelf.map (fun p => (half + half * p.1, half + half * p.2)))
+          -- the three blocks are merged with `add_intersection` (a crossing at a split point of the recursion is found
+          -- by a half and by the left/right call)
+          let blocks := leftSelf.map (fun p => (half * p.1, half * p.2))
+                ++ kept ++ rightSelf.map (fun p => (half + half * p.1, half + half * p.2))
+          .ok (blocks.foldl (fun acc p => addIntersection G p.1 p.2 acc) [])
 
 end BezierVerif.Model
